@@ -284,6 +284,22 @@ def merge_counts(ctx, counts):
     ctx.distinct |= counts[2]
 
 
+def census(ctx, module, cfg, must_cover):
+    """Vacuity guard without TLC's (expensive) -coverage: a small configuration whose invariant Census prints the
+    action that led to every state; every action of must_cover has to occur."""
+    import collections
+    import re
+    from . import core
+    res = ctx.mc(module, cfg)
+    seen = collections.Counter(re.findall(r'<<"ACT", "(\w+)">>', res.out))
+    for a in must_cover:
+        if seen.get(a, 0) == 0:
+            raise core.MachineryError("vacuous model: action %s of %s/%s never taken" % (a, module, cfg))
+    for a, n in seen.items():
+        ctx.actions[a] = ctx.actions.get(a, 0) + n
+    return seen
+
+
 def nprocs(thorough):
     import os
     n = os.environ.get("VERIF_PROCS")
@@ -410,9 +426,10 @@ class DupInc(object):
     def run(self, flow):
         from . import flowlib
         inc = flowlib._map_callable("inc")
+        import copy
         for v in flow:
             yield v
-            yield inc(v)
+            yield inc(copy.deepcopy(v))      # the two values must not share one context dictionary
 
 
 def build_stage2(st, fk, variant=0):
